@@ -158,7 +158,7 @@ theorem cancel_atomic_partial (c : Call) (k : Nat) (hc : ∀ m now, c ≠ .reque
   | ack i => cases k <;> simp [Call.cancelledAfter, Call.atoms]
   | nack i => cases k <;> simp [Call.cancelledAfter, Call.atoms]
   | reject i => cases k <;> simp [Call.cancelledAfter, Call.atoms]
-  | finish p => cases k <;> simp [Call.cancelledAfter, Call.atoms]
+  | finish c p => cases k <;> simp [Call.cancelledAfter, Call.atoms]
 
 /-- Refutation for `requeue` on the current code: cancelled between its two halves the message is
     in no place at all (neither live nor acknowledged): it is lost. -/
